@@ -114,7 +114,14 @@ fn rand_quantity(r: &mut Rng) -> ScaledQuantity {
                 let den = *r.pick(&[2u32, 3, 4, 8]);
                 Number::Fraction { whole: r.below(5) as u32, num: 1 + r.below(den as usize - 1) as u32, den, err: (r.f64() - 0.5) * 0.02 }
             }
-            _ => Number::Regular(r.below(20) as f64),
+            _ => {
+                if r.chance(1, 12) {
+                    // totals at and above 2^32 with a fractional part (whole parts of fitted fractions are u32)
+                    Number::Regular(*r.pick(&[4294967295.5, 4294967296.25, 5000000000.5, 2147483648.75, 9007199254740992.0]))
+                } else {
+                    Number::Regular(r.below(20) as f64)
+                }
+            }
         }
     };
     let value = match r.below(8) {
